@@ -67,6 +67,8 @@ func (r *lqRun) preExec(kind string) map[string]interface{} {
 		rec(ls.PreExecuteContract(tx))
 	case "evm-transfer":
 		rec(ls.PreExecuteContract(vlEvmTransfer(n.ethKeys[0], acc.Nonce, e1, 11)))
+	case "evm-transfer-free": // gas price 0, value 0: every balance it touches stays what it was
+		rec(ls.PreExecuteContract(vlEvmSign(n.ethKeys[0], ethtypes.NewTransaction(acc.Nonce, e1, big.NewInt(0), vlGasLimit, big.NewInt(0), nil))))
 	case "evm-create":
 		rec(ls.PreExecuteContract(vlEvmCreate(n.ethKeys[0], acc.Nonce, vlInitCode(vlLogger2Runtime))))
 	case "evm-call-log":
